@@ -40,7 +40,9 @@ def run_r16a(ctx, P, r, only_fn=None):
                     continue
                 seen.add((kind_, at.line))
                 what = {'leak': 'is still owned when the function returns', 'double-free': f'is freed again by {detail}',
-                        'use-after-free': f'is used after being freed ({detail})'}[kind_]
+                        'use-after-free': f'is used after being freed ({detail})',
+                        'error-with-output': f'is handed to the caller through an output parameter on a path that returns the error {detail}: '
+                                             'callers release outputs only after success'}[kind_]
                 r.fail(inst, func=name, sig=f'{kind_}: object of {site.callee} line-independent via {at.op} {detail}'.strip(),
                        loc=at.loc, msg=f'the object allocated at line {site.line} ({site.callee}) {what} (reached at line {at.line})')
     return n
@@ -311,4 +313,97 @@ def run(ctx):
                  'double free / use after free on an error path no test takes')
     shared.rule_single_owner(ctx, P, r)
     r.require_min(20, 'front-end call sites with pointer arguments')
+    # ---------------- R16g create: a successful backend init is undone when the instance is refused afterwards
+    r = ctx.rule('R16g', 'create: once the backend init succeeded, every path that does not register the instance calls the backend exit operation',
+                 'a refusal added after init that only closes the library and frees the instance leaks the backend descriptor (and its tables / matrix)')
+    cfn = P.fn('liberasurecode_instance_create')
+    inits = [i for i in cfn.insts() if i.op == 'call' and i.callee.startswith('%') and set(cg.callees(cfn, i)) & set(cg.slot_functions('init').values())]
+    regs = [i for i in cfn.insts() if i.op == 'call' and i.callee == '@liberasurecode_backend_instance_register']
+    exits_ = [i for i in cfn.insts() if i.op == 'call' and i.callee.startswith('%') and set(cg.callees(cfn, i)) & set(cg.slot_functions('exit').values())]
+    if not inits or not regs:
+        raise AnalysisBroken('anchor vanished: create lacks init / register')
+    from ..nullcheck import nonnull_edges as _nne
+    A_, _x = derived_pointers(cfn, [inits[0].res])
+    # the init result is stored into instance->desc.backend_desc and tested there: accept tests on the reloaded field too
+    cand = set(A_)
+    for ld in cfn.insts():
+        if ld.op == 'load':
+            root, steps = access_path(P, cfn, ld.ops[0])
+            if fields_in_path(steps)[-1:] == [('ec_backend_desc', 'backend_desc')]:
+                cand.add(ld.res)
+    ok_edges = _nne(cfn, cand)
+    if not ok_edges:
+        r.undecided('create: success edge of init', loc=inits[0].loc, msg='no null test on the result of the backend init')
+    for (sb, db) in ok_edges:
+        esc = reaches_without(cfn, db, lambda i: i.op == 'ret', lambda i: i in regs or i in exits_, 0)
+        inst = 'liberasurecode_instance_create: after a successful init the instance is registered or the backend exit is called'
+        if esc is None:
+            r.ok(inst, func=cfn.name, loc=inits[0].loc)
+        else:
+            r.fail(inst, func=cfn.name, sig='return after a successful init without register or exit', loc=esc.loc,
+                   msg='a path returns after the backend init succeeded without registering the instance and without calling ops->exit: the backend descriptor '
+                       'allocated by init (tables, matrix, table references) is lost')
+    r.require_min(1)
+
+    # ---------------- R16f outputs on error returns
+    r = ctx.rule('R16f', 'a function that returns an error hands no allocation to the caller through an output parameter',
+                 'callers release outputs only after success: a buffer returned together with an error code is lost')
+    from ..chains import OUT_OF_SCOPE as _OOS
+    nout = 0
+    for name, fn in sorted(P.fns.items()):
+        if _OOS.search(fn.mod.src) or SCOPE_EXCL.search(fn.mod.src) or fn.retty.strip() != 'i32':
+            continue
+        outp = {pn for pty, pn in fn.params if pty.endswith('**')}
+        if not outp:
+            continue
+        owned = {i.res for i in fn.insts() if i.op == 'call' and i.res and any(c in O.returns_owned for c in cg.callees(fn, i))}
+        if not owned:
+            continue
+        rets = [i for i in fn.insts() if i.op == 'ret' and i.ops]
+        for st in [i for i in fn.insts() if i.op == 'store' and strip_ptr_casts(fn, i.ops[1]) in outp]:
+            if not rets or rets[0].bb not in reachable_from(st.bb):
+                continue
+            # expand the stored value and the returned value together along the same incoming edges
+            leaves, seen = [], set()
+            def joint(v, rv, blk, edge, depth=0):
+                key = (v, rv, blk.label)
+                if key in seen or depth > 12:
+                    return
+                seen.add(key)
+                dv, dr = fn.defs.get(strip_ptr_casts(fn, v)), fn.defs.get(rv)
+                pv = dv if dv is not None and dv.op == 'phi' else None
+                pr = dr if dr is not None and dr.op == 'phi' else None
+                if pv is not None and pr is not None and pv.bb is pr.bb:
+                    for (a, la), (b_, lb) in zip(sorted(pv.incoming, key=lambda x: x[1]), sorted(pr.incoming, key=lambda x: x[1])):
+                        joint(a, b_, fn.blocks[la], (fn.blocks[la], pv.bb), depth + 1)
+                elif pr is not None and (pv is None or pv.bb is not pr.bb) and not (pv is not None and pr.bb in reachable_from(pv.bb) and pv.bb is not pr.bb and False):
+                    for b_, lb in pr.incoming:
+                        joint(v, b_, fn.blocks[lb], (fn.blocks[lb], pr.bb), depth + 1)
+                elif pv is not None:
+                    for a, la in pv.incoming:
+                        joint(a, rv, fn.blocks[la], (fn.blocks[la], pv.bb), depth + 1)
+                else:
+                    leaves.append((strip_ptr_casts(fn, v), rv, blk, edge))
+            joint(st.ops[0], rets[0].ops[0], st.bb, None)
+            nout += 1
+            bad = None
+            after = reachable_from(st.bb)
+            direct = fn.defs.get(strip_ptr_casts(fn, st.ops[0])) is not None and fn.defs[strip_ptr_casts(fn, st.ops[0])].op != 'phi'
+            for v, rv, blk, edge in leaves:
+                if direct and blk is not st.bb and blk not in after:
+                    continue                          # the stored value is fixed: this return value arises before the store is reached
+                if v in owned and re.match(r'^-\d+$', rv or ''):
+                    F = Facts(P, fn, blk, extra_edge=edge)
+                    cv = F.norm(v)
+                    if not F.is_null(cv):
+                        bad = (v, rv, blk)
+            inst = f'{name}: output stored at line {st.line}'
+            if bad:
+                r.fail(inst, func=name, sig=f'allocation handed out together with error {bad[1]}', loc=bad[2].insts[-1].loc,
+                       msg=f'on the path through line {bad[2].insts[-1].line} the function returns {bad[1]} and still stores the buffer allocated at line '
+                           f'{fn.defs[bad[0]].line} into its output parameter: the caller does not free outputs of a failed call')
+            else:
+                r.ok(inst + ': an allocation is handed out only together with a non-negative return value', func=name, loc=st.loc, facts={'combinations': len(leaves)})
+    r.require_min(2)
+
     ctx.borrow('c14', ['R14f'], 'the shared GF tables are a counted resource: an unbalanced reference frees them under a live instance or leaks them')
